@@ -149,8 +149,18 @@ class Scheduler:
                 return local
 
             def glob(frame, event, arg):
-                if event == "call" and frame.f_code.co_filename.endswith(STORE_FILES):
-                    return local
+                if event == "call":
+                    if frame.f_code.co_filename.endswith(STORE_FILES):
+                        return local
+                    back = frame.f_back
+                    if back is not None and back.f_code.co_filename.endswith(STORE_FILES) and \
+                            "/networkx/" in frame.f_code.co_filename.replace("\\", "/"):
+                        # entry of a networkx function called from a store line - e.g. the graph factory behind
+                        # `self.graphs[graph_id]`: a preemption point INSIDE that store line. Callbacks of the query
+                        # package (its filter lambdas run once per scanned node) are left alone: cutting into the
+                        # unlocked read-only scan of add_node's existence check is the check-then-act window that
+                        # is outside C20's statement
+                        self.yield_point(me)
                 return None
             return glob
 
